@@ -26,6 +26,23 @@ type ClEntry struct {
 	Unix    int64             `json:"unix"`
 	OffMin  int               `json:"offMin"` // zone offset in minutes
 	Gap     int               `json:"gap"`    // blank lines before this entry's header
+	// GapLines, when set, replaces Gap: the blank lines before the header, each possibly carrying
+	// blanks or a tab (dpkg's notion of a blank line is ^\s*$)
+	GapLines []string `json:"gapLines,omitempty"`
+	// DayStyle: "" = two-digit day (date -R), "1" = no leading zero, "_" = space padded
+	// (Policy: "a one- or two-digit day of the month, where the leading zero is optional")
+	DayStyle string `json:"dayStyle,omitempty"`
+}
+
+func gapText(e ClEntry) string {
+	if e.GapLines == nil {
+		return strings.Repeat("\n", e.Gap)
+	}
+	var sb strings.Builder
+	for _, l := range e.GapLines {
+		sb.WriteString(l + "\n")
+	}
+	return sb.String()
 }
 
 type ClDoc struct {
@@ -44,14 +61,21 @@ func renderClEntry(e ClEntry) (header, body, trailer string) {
 		opts = append(opts, k+"="+e.Opts[k])
 	}
 	header = fmt.Sprintf("%s (%s) %s; %s\n", e.Source, e.Version.canonical(), strings.Join(e.Dists, " "), strings.Join(opts, ", "))
-	trailer = fmt.Sprintf(" -- %s  %s\n", e.Who, clWhen(e).Format("Mon, 02 Jan 2006 15:04:05 -0700"))
+	layout := "Mon, 02 Jan 2006 15:04:05 -0700"
+	switch e.DayStyle {
+	case "1":
+		layout = "Mon, 2 Jan 2006 15:04:05 -0700"
+	case "_":
+		layout = "Mon, _2 Jan 2006 15:04:05 -0700"
+	}
+	trailer = fmt.Sprintf(" -- %s  %s\n", e.Who, clWhen(e).Format(layout))
 	return header, e.Body, trailer
 }
 
 func renderClDoc(d ClDoc) string {
 	var sb strings.Builder
 	for _, e := range d.Entries {
-		sb.WriteString(strings.Repeat("\n", e.Gap))
+		sb.WriteString(gapText(e))
 		h, b, tr := renderClEntry(e)
 		sb.WriteString(h + b + tr)
 	}
@@ -107,6 +131,13 @@ func genClEntry(t *rapid.T, first bool) ClEntry {
 	} else {
 		e.Gap = rapid.SampledFrom([]int{0, 0, 0, 1}).Draw(t, "gap0")
 	}
+	if e.Gap > 0 && rapid.IntRange(0, 5).Draw(t, "gapws") == 0 {
+		e.GapLines = []string{}
+		for i := 0; i < e.Gap; i++ {
+			e.GapLines = append(e.GapLines, rapid.SampledFrom([]string{"", " ", "  ", "\t", " \t"}).Draw(t, "gapl"))
+		}
+	}
+	e.DayStyle = rapid.SampledFrom([]string{"", "", "", "1", "_"}).Draw(t, "daystyle")
 	return e
 }
 
@@ -180,7 +211,7 @@ func entriesMatch(got changelog.ChangelogEntries, want []ClEntry) error {
 
 var specC17Model = Register(&Spec[ClDoc]{
 	Prop: "C17", Name: "model",
-	Rule: "changelogs rendered from an entry-list model: 1..6 entries; source [a-z0-9][a-z0-9+.-]+, Policy-grammar version, 1..3 distributions, 1..3 key=value options, body of blank lines after the header, '  * item', deeper continuation, '  [ Name ]', blank lines and lines containing ' -- ', ';', '(' in the middle, blank lines before the trailer; maintainer 'Name <mail>'; timestamp from a generated instant and zone offset (-12:00..+14:00 incl. half/quarter hours and +00:01) rendered like date -R; 0..3 blank lines between entries; final newline present or absent; trailing blank lines. Oracle: changelog.Parse returns one entry per block in order with Source, Version (parts), Target (distributions joined by one blank), Arguments, Changelog == exact bytes between header and trailer line, ChangedBy, When equal as instant AND zone offset; ParseOne returns the first; parsing the same text again right after three failing parses (document cut inside a body, trailer without date) gives the same entries. Non-trivial: >= 2 entries, >= 2 options, or no final newline; distinct by text.",
+	Rule: "changelogs rendered from an entry-list model: 1..6 entries; source [a-z0-9][a-z0-9+.-]+, Policy-grammar version, 1..3 distributions, 1..3 key=value options, body of blank lines after the header, '  * item', deeper continuation, '  [ Name ]', blank lines and lines containing ' -- ', ';', '(' in the middle, blank lines before the trailer; maintainer 'Name <mail>'; timestamp from a generated instant and zone offset (-12:00..+14:00 incl. half/quarter hours and +00:01) rendered like date -R, or with the day's leading zero left out or replaced by a blank (Policy allows a day 32); 0..3 blank lines between entries, in 1/6 of the cases carrying blanks or a tab (dpkg reads ^\\s*$ as blank); final newline present or absent; trailing blank lines. Oracle: changelog.Parse returns one entry per block in order with Source, Version (parts), Target (distributions joined by one blank), Arguments, Changelog == exact bytes between header and trailer line, ChangedBy, When equal as instant AND zone offset; ParseOne returns the first; parsing the same text again right after three failing parses (document cut inside a body, trailer without date) gives the same entries. Non-trivial: >= 2 entries, >= 2 options, or no final newline; distinct by text.",
 	Check: func(d ClDoc, r *Recorder) error {
 		text := renderClDoc(d)
 		nt := len(d.Entries) >= 2 || !d.FinalNewline
@@ -326,7 +357,7 @@ func checkClPrefix(c ClPrefix, r *Recorder) error {
 		off := 0
 		for _, e := range c.Doc.Entries {
 			h, b, tr := renderClEntry(e)
-			off += e.Gap + len(h) + len(b) + len(tr)
+			off += len(gapText(e)) + len(h) + len(b) + len(tr)
 			ends = append(ends, off)
 		}
 	}
@@ -337,7 +368,7 @@ func checkClPrefix(c ClPrefix, r *Recorder) error {
 		}
 	}
 	rest := prefix[pos:]
-	inside := strings.Trim(rest, "\n") != ""
+	inside := strings.TrimSpace(rest) != ""
 	r.Case(prefix, inside, map[bool]string{true: "cut-inside-entry", false: "cut-at-boundary"}[inside])
 	if inside && c.Cut%97 == 0 {
 		r.Sample(prefix)
@@ -406,10 +437,10 @@ func genClBad(t *rapid.T) ClBad {
 	d := genClDoc(t)
 	d.FinalNewline = true
 	i := rapid.IntRange(0, len(d.Entries)-1).Draw(t, "which")
-	class := rapid.SampledFrom([]string{"header-no-open-paren", "header-no-close-paren", "bad-version", "trailer-single-space", "bad-month", "one-digit-day", "unindented-body-line", "trailer-no-date", "bad-zone"}).Draw(t, "class")
+	class := rapid.SampledFrom([]string{"header-no-open-paren", "header-no-close-paren", "bad-version", "trailer-single-space", "bad-month", "day-out-of-range", "unindented-body-line", "trailer-no-date", "bad-zone"}).Draw(t, "class")
 	var sb strings.Builder
 	for j, e := range d.Entries {
-		sb.WriteString(strings.Repeat("\n", e.Gap))
+		sb.WriteString(gapText(e))
 		h, b, tr := renderClEntry(e)
 		if j == i {
 			switch class {
@@ -423,9 +454,9 @@ func genClBad(t *rapid.T) ClBad {
 				tr = strings.Replace(tr, ">  ", "> ", 1)
 			case "bad-month":
 				tr = strings.Replace(tr, clWhen(e).Format(" Jan "), " Foo ", 1)
-			case "one-digit-day":
+			case "day-out-of-range":
 				tm := clWhen(e)
-				tr = fmt.Sprintf(" -- %s  %s\n", e.Who, tm.Format("Mon, ")+"1"+tm.Format(" Jan 2006 15:04:05 -0700"))
+				tr = fmt.Sprintf(" -- %s  %s\n", e.Who, tm.Format("Mon, ")+"32"+tm.Format(" Jan 2006 15:04:05 -0700"))
 			case "unindented-body-line":
 				b = b + "oops this line is not indented\n"
 			case "trailer-no-date":
@@ -442,7 +473,7 @@ func genClBad(t *rapid.T) ClBad {
 
 var specC17Malformed = Register(&Spec[ClBad]{
 	Prop: "C17", Name: "malformed",
-	Rule: "one entry of a generated changelog is damaged in one way: header without '(' or without ')', unparsable version, trailer with a single space before the date, month 'Foo', one-digit day, an unindented body line, trailer without date, zone written 'UTC'. Oracle: Parse returns an error, or all entries of the model - never fewer entries without an error. Every case is non-trivial; distinct by text.",
+	Rule: "one entry of a generated changelog is damaged in one way: header without '(' or without ')', unparsable version, trailer with a single space before the date, month 'Foo', day 32, an unindented body line, trailer without date, zone written 'UTC'. Oracle: Parse returns an error, or all entries of the model - never fewer entries without an error. Every case is non-trivial; distinct by text.",
 	Check: func(c ClBad, r *Recorder) error {
 		r.Case(c.Text, true, "malformed:"+c.Class)
 		r.Sample(map[string]string{"class": c.Class, "text": c.Text})
